@@ -5,6 +5,10 @@
 //!            1: A = prune,  B = backup      (prune || backup)
 //!            2: A = backup, B = backup      (backup || backup)
 //!            3: replay of the model's `slow_prune_run` witness on the real code
+//!            4: A = backup of the FIRST source again (every blob reused from packs the prune marks),
+//!               B = prune
+//!            5: only one snapshot exists; A = backup (parked); then that snapshot is forgotten and
+//!               B = prune runs (it finds EVERY pack unused: its new index holds marks only)
 //!   k: A is parked before its k-th (0-based) mutating backend operation (k >= #ops: never parked)
 //!   j: 0 = B runs fully while A is parked; j > 0: B is parked before its j-th mutating operation,
 //!      then A runs to its end, then B
@@ -12,6 +16,10 @@
 //!   variant: bit 0: an earlier prune (same keep_delete) ran in the set-up, so marked packs exist;
 //!            bit 1: prunes repack aggressively (max_unused 0) instead of keeping partly used packs;
 //!            bit 2: sleep keep_delete + 50 ms before the concurrent phase (marks expire)
+//!            bit 3: the further prune uses the case's keep_delete and runs keep_delete + 60 ms after
+//!                   the concurrent phase (the marks have expired: needed packs must be RECOVERED)
+//!            bit 4: A stays parked until keep_delete + 60 ms after B finished (finishes after expiry)
+//!            bit 5: the second set-up backup is skipped (forgetting snapshot 1 leaves every pack unused)
 //!
 //! Every command runs on its own `ActorBe` over one shared in-memory store; every backend call is
 //! logged in real order; every file ever written is kept in an archive store so that index and
@@ -370,9 +378,13 @@ fn run_case(line: &str) -> Result<String> {
 
     // ---- set-up history
     let a1 = w.run_now(Cmd::Backup(d1.clone()));
-    let _a2 = w.run_now(Cmd::Backup(d2.clone()));
+    if variant & 32 == 0 && scenario != 5 {
+        let _a2 = w.run_now(Cmd::Backup(d2.clone()));
+    }
     let s1 = w.actors.lock().unwrap()[a1].snap.ok_or_else(|| anyhow!("set-up backup failed: {}", w.actors.lock().unwrap()[a1].err))?;
-    let _ = w.run_now(Cmd::Forget(s1));
+    if scenario != 5 {
+        let _ = w.run_now(Cmd::Forget(s1));
+    }
     let mut parked_a = false;
     let mut parked_b = false;
     let (mut act_a, mut act_b) = (0usize, 0usize);
@@ -412,13 +424,19 @@ fn run_case(line: &str) -> Result<String> {
         let (ca, cb) = match scenario {
             0 => (Cmd::Backup(d3.clone()), Cmd::Prune { kd_ms, repack }),
             1 => (Cmd::Prune { kd_ms, repack }, Cmd::Backup(d3.clone())),
-            _ => (Cmd::Backup(d3.clone()), Cmd::Backup(d1.clone())),
+            2 => (Cmd::Backup(d3.clone()), Cmd::Backup(d1.clone())),
+            4 => (Cmd::Backup(d1.clone()), Cmd::Prune { kd_ms, repack }),
+            _ => (Cmd::Backup(if seed & 1 == 0 { d1.clone() } else { d3.clone() }), Cmd::Prune { kd_ms, repack }),
         };
         let a = w.register(&ca, Some(k));
         let wa = w.clone();
         let ca2 = ca.clone();
         let ha = std::thread::spawn(move || wa.exec(a, &ca2));
         parked_a = sh.wait_parked_or_done(a);
+        if scenario == 5 {
+            let _ = w.run_now(Cmd::Forget(s1));
+        }
+        let late = variant & 16 != 0;
         let b = w.register(&cb, if j > 0 { Some(j) } else { None });
         if j > 0 {
             let wb = w.clone();
@@ -431,6 +449,9 @@ fn run_case(line: &str) -> Result<String> {
             let _ = hb.join();
         } else {
             w.exec(b, &cb);
+            if late {
+                std::thread::sleep(Duration::from_millis((kd_ms + 60) as u64));
+            }
             sh.release(a);
             let _ = ha.join();
         }
@@ -439,7 +460,12 @@ fn run_case(line: &str) -> Result<String> {
     }
 
     // ---- the further prune (default keep_delete: nothing is deleted, needed marked packs are recovered)
-    let further = w.run_now(Cmd::Prune { kd_ms: 23 * 3600 * 1000, repack: false });
+    let further = if variant & 8 != 0 && scenario != 3 {
+        std::thread::sleep(Duration::from_millis((kd_ms + 60) as u64));
+        w.run_now(Cmd::Prune { kd_ms, repack: false })
+    } else {
+        w.run_now(Cmd::Prune { kd_ms: 23 * 3600 * 1000, repack: false })
+    };
 
     // ---- oracle on the real store (plain handle, not logged)
     let plain: Arc<dyn WriteBackend> = store.clone();
@@ -680,8 +706,10 @@ fn run_case(line: &str) -> Result<String> {
 
     let ia = &actors[act_a];
     let ib = &actors[act_b];
+    let maxbk = actors.iter().filter(|i| i.kind == 'B').map(|i| i.end_ms - i.start_ms).max().unwrap_or(0);
     let head = format!(
-        "ok scen={scenario} A={}{} B={}{} parkedA={} parkedB={} durA={} durB={} kd={} further={} clean={} badrestore={} nsnaps={} errA={} errB={}",
+        "ok scen={scenario} variant={variant} maxbk={maxbk} kdms={kd_ms} errF={} A={}{} B={}{} parkedA={} parkedB={} durA={} durB={} kd={} further={} clean={} badrestore={} nsnaps={} errA={} errB={}",
+        if actors[further].err.is_empty() { "-" } else { &actors[further].err },
         ia.kind,
         u8::from(ia.ok),
         ib.kind,
